@@ -1,2 +1,31 @@
+"""Structural signatures of the recorded C07 findings (open entries of known_findings.json)."""
+
+
+def _atoms(q):
+    if q[0] == "atom":
+        return [q[1]]
+    if q[0] in ("and", "or"):
+        return _atoms(q[1]) + _atoms(q[2])
+    return []
+
+
 def classify(case, failure):
+    if case is None:
+        return None
+    tier, di, sel, q, quant = case
+    atoms = _atoms(q)
+    ycmp = [a for a in atoms if a[0] == "cmpy"]
+    if not ycmp:
+        return None
+    two_var = [a for a in atoms if a[0] in ("join", "cmp2")]
+    # C07-F3: a second variable of the SELECTED variable's table that is only compared with literals
+    if failure.kind in ("different-entities", "different-row-multiplicity") and not two_var \
+            and all(a[2] == sel for a in ycmp):
+        return "C07/second-variable-of-the-selected-table-compared-with-literals-only"
+    # C07-F4: an attribute path on the second variable written before the equality join that introduces it
+    if failure.kind == "sql-execution-crash" and any(a[0] == "join" for a in two_var) \
+            and any(len(a[3]) > 1 for a in ycmp) and "ambiguous column name" in failure.detail:
+        first = atoms[0]
+        if first[0] == "cmpy":
+            return "C07/path-on-second-variable-before-its-join"
     return None
